@@ -230,6 +230,7 @@ func (db *DBResource) ConnectionForXA(ctx context.Context, xaXid XAXid) (*XAConn
 		},
 		xaBranchXid: XaIdBuild(xaXid.GetGlobalXid(), xaXid.GetBranchId()),
 		xaResource:  xaResource,
+		detached:    true,
 	}
 	return xaConn, nil
 }
